@@ -48,8 +48,22 @@ func shapes(tier string) []*tbin.Shape {
 			tbin.StructS(tbin.SF(3, tbin.StructS(tbin.SF(1, in)))),
 		)
 	}
+	all = append(all, wideStruct)
 	return all
 }
+
+// wideStruct: more fields than a machine word has bits (bulk edits of ALL children; histories of length 1)
+var wideStruct = func() *tbin.Shape {
+	var fs []tbin.SField
+	for i := 1; i <= 70; i++ {
+		t := tbin.Sc(tbin.I32)
+		if i%7 == 0 {
+			t = tbin.Sc(tbin.STRING)
+		}
+		fs = append(fs, tbin.SF(int16(i), t))
+	}
+	return tbin.StructS(fs...)
+}()
 
 const chunk = 4
 
@@ -91,6 +105,9 @@ func (check) Enumerate(tier string, seed int64, group int, yield func(core.Case)
 				d := depth
 				if n == 3 {
 					d = 2
+				}
+				if s == wideStruct {
+					d = 1
 				}
 				c := core.Case{
 					Tag: api,
@@ -338,6 +355,22 @@ func alphabet(m *tbin.Val, s *tbin.Shape, typed bool) []op {
 				continue
 			}
 			cands = append(cands, a)
+		}
+		if len(ch) > 8 {
+			// wide container: one SetMany replacing ALL present children (ascending and descending request order),
+			// and the same plus the insertions
+			var up, down []manyItem
+			for i, c := range ch {
+				if c.S != nil {
+					up = append(up, cand{PE: c.PE, Val: fresh(c.S, 1, 9+i%5), ValS: c.S, Present: true})
+				}
+			}
+			for i := len(up) - 1; i >= 0; i-- {
+				down = append(down, up[i])
+			}
+			for _, sel := range [][]manyItem{up, down, append(append([]manyItem{}, down...), cands[min(2, len(cands)):]...)} {
+				ops = append(ops, op{Kind: "setmany", Many: sel, Trig: manyTrig(m, sel[:1]) + ",all-children", Expect: "many"})
+			}
 		}
 		for i := range cands {
 			ops = append(ops, op{Kind: "setmany", Many: []manyItem{cands[i]}, Trig: manyTrig(m, cands[i:i+1]), Expect: "many"})
